@@ -3,7 +3,8 @@
    RoundTrip = the property statement on the pair (open, close).  CLS lines classify failures by
    whether the configuration respects the governance convention on the impact caps (established by
    MC_PositionC10: only configurations outside it admit a profit).  RT lines carry the profit of every
-   completed round trip (evidence / vacuity). *)
+   completed round trip (evidence / vacuity); DES lines carry, for every failing round trip, the profit the
+   precise specification yields for the same input (a known design-level profit vs one made worse). *)
 EXTENDS PositionProps, TraceLib
 VARIABLE i
 Init == i = 0
@@ -16,6 +17,8 @@ Next ==
        /\ (~(i' > 1 /\ ~e.reset /\ e.rt /\ IsRoundTrip(Rec[i' - 1], e))
              \/ Emit("RT", [i |-> i', profit |-> RoundTripProfit(Rec[i' - 1], e), tol |-> RoundTripTol(Rec[i' - 1]),
                             conv |-> CapConvention(e.pre.m.c)]))
+       /\ (~(i' > 1 /\ ~e.reset /\ e.rt) \/ MonRoundTrip(Rec[i' - 1], e)
+             \/ Emit("DES", [i |-> i', design |-> DesignRoundTrip(Rec[i' - 1], e)]))
        /\ LET w == DriftWhat(e) IN Drift(i', w = "", e.op \o ":" \o w)
 Spec == Init /\ [][Next]_i
 Done == Emit("DONE", [events |-> TLCGet("stats").diameter - 1])
